@@ -27,7 +27,8 @@ def probe_candles(n=6):
     rows = []
     prev = prices[0]
     for i, p in enumerate(prices):
-        rows.append([S.T0 + i * S.MIN, prev, p, max(prev, p) + 0.5, min(prev, p) - 0.5, 10.0])
+        o = prev + 0.25 if i == 3 else prev  # minute 3 opens away from the previous close (the simulators normalise such a gap in their copy)
+        rows.append([S.T0 + i * S.MIN, o, p, max(o, p) + 0.5, min(o, p) - 0.5, 10.0])
         prev = p
     return rows
 
@@ -263,6 +264,7 @@ def _jobs(tier):
     for vn in names:
         add(vn, probe_type='futures')
     add('same', probe_type='spot')
+    add('same', probe_type='futures', probe_fast=True)
     if tier != 'quick':
         for vn in names:
             add(vn, probe_type='spot')
